@@ -151,7 +151,10 @@ theorem triPixels_in_box (t : Tri) (style : TriStyle) (bb : Rect)
     (px : List (Pt × Nat)) (hpx : triPixels t style = some px) :
     ∀ pc ∈ px, bb.contains pc.1 = true := by
   unfold triPixels at hpx
-  rw [hbb] at hpx
+  cases hfuel : triPixelFuel t style with
+  | none => rw [hfuel] at hpx; cases hpx
+  | some fuel0 =>
+  rw [hfuel] at hpx
   simp only [Option.bind_eq_bind, Option.bind_some] at hpx
   cases hnew : TriPixels.new t style with
   | none => rw [hnew] at hpx; cases hpx
